@@ -21,8 +21,8 @@
    (the server's qid counter; StartQuery's own duplicate check looks at the running table only).
    The pre-fix behaviour is documented at the end by C17_prefix_*_refuted (model [step_prefix]). *)
 From Coq Require Import List Sorted.
-From SigM Require Import Base QueryLife.
-From SigP Require Import BaseProofs QueryLifeProofs.
+From SigM Require Import Base QueryLife EvalIdx.
+From SigP Require Import BaseProofs QueryLifeProofs EvalIdxProofs.
 Import ListNotations.
 Open Scope nat_scope.
 
@@ -180,6 +180,42 @@ Theorem C17_live_fresh_satisfiable :
                      Start 1 false true; Cancel 1; Delete 1] = true.
 Proof. exact live_fresh_satisfiable. Qed.
 Print Assumptions C17_live_fresh_satisfiable.
+
+(* ---------- evaluator: index arithmetic of substr(str, start [, length]) ----------
+   (one piece of the "answers with results or an error and keeps running" clause that IS modelled:
+   model SigM.EvalIdx follows TextExpr.EvaluateText case "substr"; an invalid slice bound panics in
+   the query goroutine and ends the process.  The other eval functions are covered by the
+   robustness stream only.) *)
+Open Scope Z_scope.
+(* whatever the start and length arguments are, the range check lets only valid Go slices through *)
+Theorem C17_substr_slice_valid : forall n start len lo hi,
+  0 <= n -> substr_idx n start len = SOk lo hi -> 0 <= lo <= hi /\ hi <= n.
+Proof. exact substr_slice_valid. Qed.
+Print Assumptions C17_substr_slice_valid.
+
+(* ... and the answer is "from the start position exactly [length] bytes, or the rest" *)
+Theorem C17_substr_extent : forall n start len lo hi,
+  substr_idx n start len = SOk lo hi ->
+  lo = substr_start n start /\
+  match len with Some l => 0 <= l /\ hi = lo + l | None => hi = n end.
+Proof. exact substr_extent. Qed.
+Print Assumptions C17_substr_extent.
+
+(* a check of the END index (end < 0 || end > len) instead of the length is the same function
+   unless the length is negative with a non-negative end index ... *)
+Theorem C17_substr_endcheck_agrees_guarded : forall n start len,
+  match len with Some l => 0 <= l \/ substr_start n start + l < 0 | None => True end ->
+  substr_idx_endcheck n start len = substr_idx n start len.
+Proof. exact endcheck_agrees. Qed.
+Print Assumptions C17_substr_endcheck_agrees_guarded.
+
+(* ... where it admits an invalid slice: substr of an 8-byte string, start 6, length -2 -> [5:3] *)
+Theorem C17_substr_endcheck_refuted :
+  exists n start l lo hi, 0 <= n /\ substr_idx_endcheck n start (Some l) = SOk lo hi /\
+    slice_valid n lo hi = false /\ hi < lo /\ substr_idx n start (Some l) = SErrLen.
+Proof. exact endcheck_refuted. Qed.
+Print Assumptions C17_substr_endcheck_refuted.
+Open Scope nat_scope.
 
 (* ---------- PRE-FIX documentation (about [step_prefix] / [run_prefix], querystatus.go before the
    two repairs; no longer the code).  Before the fixes the statements above held only under guards
